@@ -21,7 +21,6 @@ import (
 	"path/filepath"
 	"regexp"
 	"runtime"
-	"runtime/pprof"
 	"strconv"
 	"strings"
 	"sync"
@@ -55,10 +54,10 @@ func main() {
 func seqWorkers() int   { return lib.Pick(4, 12) }
 func evmSeqTotal() int  { return lib.Pick(2000, 200000) }
 func memSeqTotal() int  { return lib.Pick(2000, 200000) }
-func concPlainEvm() int { return lib.Pick(240, 16000) }
-func concPlainMem() int { return lib.Pick(300, 16000) }
-func concRaceEvm() int  { return lib.Pick(100, 4000) }
-func concRaceMem() int  { return lib.Pick(100, 4000) }
+func concPlainEvm() int { return lib.Pick(240, 4000) }
+func concPlainMem() int { return lib.Pick(300, 4000) }
+func concRaceEvm() int  { return lib.Pick(100, 600) }
+func concRaceMem() int  { return lib.Pick(100, 600) }
 func concChildren() int { return lib.Pick(1, 4) }
 func watchdog() time.Duration {
 	return time.Duration(lib.Pick(12, 50)) * time.Minute
@@ -139,6 +138,7 @@ func parent() {
 	if lib.Thorough() {
 		run.Require("ticker_eviction_observed", 1)
 	}
+	os.RemoveAll(scratch)
 	os.Exit(run.Finish())
 }
 
@@ -175,18 +175,13 @@ func seqWorker(args []string) {
 	wid, _ := strconv.Atoi(args[0])
 	nw, _ := strconv.Atoi(args[1])
 	out := args[2]
-	if pf := os.Getenv("C19_CPUPROFILE"); pf != "" {
-		f, _ := os.Create(pf)
-		pprof.StartCPUProfile(f)
-		defer pprof.StopCPUProfile()
-	}
 	runtime.GOMAXPROCS(1)
 	evmdrive.Quiet()
 	evm.VerifSetValidateRoutines(2)
 	run := lib.NewChildRun(prop)
 	rep := report{run}
 	log := openInputs(out + ".inputs")
-	dir := lib.Scratch(prop + "-seq")
+	dir := filepath.Join(filepath.Dir(out), fmt.Sprintf("w%d-data", wid)) // inside the parent's scratch: removed there even if this process dies
 	defer os.RemoveAll(dir)
 	var pools []*evmSeq
 	for _, bs := range []int{1, 3} {
@@ -242,7 +237,7 @@ func concChild(args []string) {
 	evm.VerifSetValidateRoutines(2)
 	run := lib.NewChildRun(prop)
 	rep := report{run}
-	dir := lib.Scratch(prop + "-cc")
+	dir := out + ".data" // inside the parent's scratch
 	defer os.RemoveAll(dir)
 	app, err := evmdrive.Open(dir, 5)
 	if err != nil {
@@ -483,7 +478,7 @@ func tickerChild(args []string) {
 	evmdrive.Quiet()
 	run := lib.NewChildRun(prop)
 	rep := report{run}
-	dir := lib.Scratch(prop + "-tick")
+	dir := out + ".data"
 	defer os.RemoveAll(dir)
 	w, err := openEvmSeq(rep, dir, 3, 99, &inputsLog{})
 	if err != nil {
